@@ -193,6 +193,14 @@ def events(max_sel, func_subset=None):
         for k in range(1, max_sel + 1):
             for sel in itertools.permutations(names, k):
                 out.append(("calc", cube, sel))
+        if cube not in ("cC", "xC"):
+            # the SAME function object listed twice in one pass (and around another one): each position must equal the aggregate alone
+            for n in names:
+                out.append(("calc", cube, (n, n)))
+            if max_sel >= 2:
+                other = names[0]
+                for n in names[1:]:
+                    out.append(("calc", cube, (n, other, n)))
         for s in SHORTCUTS[cube[0]]:
             out.append(("short", cube, s))
     # cubes with a different row count: only function objects that do not carry per-row arguments
